@@ -12,6 +12,8 @@
     (no Continue/Break), in the Prepare variant it skips the transaction.
  P4 (K2) byte counters: the append is followed by both checked counter updates on every success
     path; counters are only assigned inside `*_checked_add` behind the `<= max` comparison.
+ P6 (K2+K5) PrepareProposal charges the CometBFT byte budget with the length of each encoded
+    injected data item before transactions are selected against the remaining budget.
  P5 (K1) prepare and process derive the commitments with the same function from
     (transactions, cached deposits).
 Not decided: liveness for every mempool content; CometBFT's exact byte accounting.
@@ -48,6 +50,7 @@ def run(prog, rep):
     p3(prog, rep)
     p4(prog, rep)
     p5(prog, rep)
+    p6(prog, rep)
 
 
 def p1(prog, rep):
@@ -272,3 +275,80 @@ def p5(prog, rep):
         rep.check("prepare_proposal_tx_execution(" in a[0] and
                   "get_cached_block_deposits(self.state)" in a[1], "P5", f"prepare-operands:{g.line}",
                   f"prepare derives commitments from {[x[:50] for x in a]}", g.where())
+
+
+# ----------------------------------------------------------------------------------------------
+# P6 (strengthened after seed C06a): PrepareProposal charges the CometBFT byte budget with the
+# encoded size of every injected data item, i.e. with the length of the very bytes it includes.
+
+def p6(prog, rep):
+    body = prog.main_body(A + "prepare_proposal")
+    enc = [c for c in body.calls if c.matches(r"sequencerblock::v1::block::DataItem::encode$")]
+    adds = [c for c in body.calls if c.is_(BSC + "cometbft_checked_add")]
+    txx = body.calls_to(A + "prepare_proposal_tx_execution")
+    rep.floor("P6", len(enc), 2, "DataItem::encode calls in prepare_proposal")
+    rep.floor("P6", len(adds), 2, "cometbft_checked_add calls in prepare_proposal")
+    if not txx:
+        rep.anchor_missing("P6", A + "prepare_proposal_tx_execution (call in prepare_proposal)")
+        return
+    # every encoded injected item is charged before the transactions get the remaining budget
+    for e in enc:
+        if e.target is None:
+            continue
+        # the encoded value may be wrapped in Some(..) of a named Option that is tested again
+        # later (`if let Some(bytes) = &encoded_..`): on paths from this encode it *is* Some
+        infeasible = set()
+        d = int(e.dest.split("|")[0])
+        for i, j, p, rv, line in body.aggregates("adt", r"core::option::Option$"):
+            if rv[3] == "Some" and rv[4] and rv[4][0][0] in "cm" and \
+                    int(rv[4][0][1].split("|")[0]) == d:
+                nm = body.dbg_name(p)
+                if nm:
+                    for sb in body.live_blocks():
+                        t = body.term(sb)
+                        if t[0] == "switch" and body.root(t[1]) == f"disc({nm})":
+                            infeasible |= {(sb, tgt) for v, tgt in t[2] if v != 1}
+                            if any(v == 1 for v, _ in t[2]):
+                                infeasible.add((sb, t[3]))
+        ok = txx[0].bb not in body.reachable(e.target, removed_edges=infeasible,
+                                             removed_blocks=[a.bb for a in adds])
+        rep.check(ok, "P6", f"encoded-item=>charged:{e.line}",
+                  "an injected data item is encoded (and later included in the proposal) on a path "
+                  "that does not charge its size to the CometBFT byte budget before transactions "
+                  "are selected: the block can exceed max_tx_bytes by the uncounted bytes",
+                  e.where())
+    # what is charged is the length of a DataItem-encoded value (not of its inner payload)
+    for a in adds:
+        r = body.root(a.args[1])
+        m = re.fullmatch(r"len\((\w+)(<Some>\.0)?\)", r)
+        ok = False
+        detail = r
+        if m:
+            defs = [d for d in body.named_def_roots(m.group(1)) if d != "agg"]
+            detail = f"{r} with {m.group(1)} := {[d[:60] for d in defs]}"
+            ok = all(d.startswith("encode(adt:astria_core::sequencerblock::v1::block::DataItem::")
+                     for d in defs) and (bool(defs) or m.group(2) is not None)
+            if not defs and m.group(2):
+                # Option-wrapped: the payload inside Some(..) must be an encode(..) result
+                somes = [body.root(rv[4][0]) for i, j, p, rv, line in
+                         body.aggregates("adt", r"core::option::Option$") if rv[3] == "Some" and rv[4]]
+                ok = any(s.startswith("encode(adt:astria_core::sequencerblock::v1::block::DataItem::")
+                         for s in somes)
+        elif r.startswith("len(encode(adt:astria_core::sequencerblock::v1::block::DataItem::"):
+            ok = True
+        rep.check(ok, "P6", f"charged=len(encoded-item):{a.line}",
+                  f"the CometBFT byte budget is charged with `{detail[:160]}`, which is not the "
+                  f"length of the encoded data item that is put into the block", a.where(),
+                  detail=detail[:120])
+    # the items chained into the response are those encoded values
+    ch = [c for c in body.calls if c.matches(r"core::iter::traits::iterator::Iterator::chain$")]
+    rep.floor("P6", len(ch), 2, "chain calls assembling the proposal")
+    # BlockSizeConstraints::new(max_tx_bytes, ..)
+    nw = [c for c in body.calls if c.is_(BSC + "new")]
+    rep.check(bool(nw) and body.root(nw[0].args[0]) == "prepare_proposal.max_tx_bytes", "P6",
+              "budget=max_tx_bytes", "the byte budget is not CometBFT's max_tx_bytes", body.describe())
+    if nw and txx:
+        rep.check("new(prepare_proposal.max_tx_bytes" in body.root(txx[0].args[1]), "P6",
+                  "txs-get-the-charged-budget",
+                  "transaction selection does not use the budget that the injected items were "
+                  "charged to", txx[0].where())
